@@ -25,7 +25,28 @@
      not find `endstream`); the renderer never emits a payload for which it would succeed;
    * only IXStm items have /Type /XRef and only IObjStm items have /Type /ObjStm;
    * trailers carry no /Encrypt; object values nest less than 50 deep;
-   * header offset + any offset in the file < 2^64 (no usize overflow in check_cursor).  *)
+   * (none needed any more about usize overflow: check_cursor / set_cursor compare `ofs` with the view's
+     size without adding the view's start — parsebuffer.rs as repaired under C17 — and every offset
+     reaches the loader through IntegerT (i64) or a <= 4-byte xref-stream field.)
+
+   Panic sites.  [outcome] has no Panic constructor because the transcribed functions contain no
+   reachable one; each candidate in the Rust text is guarded by the test that precedes it:
+     get_xref_info       xinfo.unwrap() after `if xinfo.is_none() { exit_log! }`; root.unwrap() after
+                         `if root.is_none() { exit_log! }`; set_cursor_unsafe(next) (assert ofs <= size)
+                         after `if !check_cursor(next) { exit_log! }` (ofs < size)
+     parse_xref_section  xrsect.unwrap() / t.unwrap() after `if let Err(e)` returns; set_cursor_unsafe(start)
+                         with the cursor value just read
+     parse_xref_stream   xref_obj.unwrap(), xref_buf.unwrap(), xref_stm.unwrap() after `if let Err` returns
+     info_from_xref_entries  no unwrap / index / arithmetic
+     parse_objects       set_cursor_unsafe(ofs) after `if !check_cursor(ofs) { exit_log! }`; lobj.unwrap() is
+                         LocatedVal::unwrap (total); obj_buf.unwrap() / obj_stm.unwrap() after `if let Err`
+     parse_data          view.transform(&pb).unwrap(): RestrictView(nbytes, remaining) right after scan moved
+                         the cursor to nbytes: always inside; buflen - eof.unwrap() and buflen - sxref.unwrap():
+                         a backward_scan from cursor c returns a skip <= c <= buflen; set_cursor_unsafe(buflen)
+                         and set_cursor_unsafe(sxref_offset) after check_cursor
+   (panics INSIDE the byte-level parsers the loader calls belong to C15 C16 C02 C05 C13 C14 C06 C07.)
+   Loops: the /Prev walk runs on fuel (never exhausted: Proofs/Loader.v load_no_fuel); the three object
+   passes are structural recursions over the entry lists.  *)
 From PV Require Export Base.PdfObj.
 
 (* ---------- data ---------- *)
